@@ -108,15 +108,31 @@ def fault_positions(n, bounds, limit):
     return ks
 
 
+def handle_fidelity(lines, prop):
+    """Trace_HandleFid output: cache states of real handles (hook Stream::verif_state) predicted by CfbHandle."""
+    compared = sum(int(m.group(1)) for m in (re.match(r'^<<"HCOMPARED", (\d+)>>', ln) for ln in lines) if m)
+    kinds = {}
+    for ln in lines:
+        if ln.startswith('<<"HDRIFT"'):
+            parts = ln.split('"')
+            k = f"{parts[3]} after {parts[5]}"
+            kinds[k] = kinds.get(k, 0) + 1
+    for k, n in sorted(kinds.items())[:12]:
+        print(f"SPEC-DRIFT {prop} CfbHandle does not predict the handle's cache state: {k} x{n}")
+    return {"handle_cache_states_compared_with_CfbHandle": compared, "cache_drift": kinds}
+
+
 def check_c06(tier, seed):
     out = Outcome("C06", tier, seed)
+    flines = []
     rng = random.Random(seed)
     design_handle(out, [(2, 4, 0), (3, 4, 0)] + ([(5, 4, 0), (8, 4, 0), (32, 4, 0), (3, 5, 0)] if tier == "thorough" else []))
     depth = 4 if tier == "quick" else 5
     edges, gen, distinct = gens.tlc_edges("MC_Handle", hgens.mc_handle_cfg(3, 4, 0, True, depth=depth), {}, "mch_edges", workers=6)
     if tier == "quick" and len(edges) > 6000:
         edges = edges[:6000]            # BFS order: quick is a prefix of thorough
-    run_batch(out, "edges", "A", hgens.edge_histories(edges, 4, tier), spec="Trace_Handle", driver="hdrive")
+    run_batch(out, "edges", "A", hgens.edge_histories(edges, 4, tier), spec="Trace_Handle", driver="hdrive",
+              extra_specs=("Trace_HandleFid",), keep=flines)
     n = 120 if tier == "quick" else 1500
     hs = []
     for i in range(n):
@@ -129,14 +145,18 @@ def check_c06(tier, seed):
     for ver in (3, 4):
         for mb in hgens.CONFIGS:
             hs.append(dict(base, id=f"same_v{ver}_mb{mb}", ver=ver, maxbuf=mb))
-    run_batch(out, "random", "A", hs, spec="Trace_Handle", driver="hdrive")
+    run_batch(out, "random", "A", hs, spec="Trace_Handle", driver="hdrive", extra_specs=("Trace_HandleFid",), keep=flines)
     # truncate-then-extend inside the same final (mini) sector: a byte vector pads with zeros
-    run_batch(out, "setlen-within-unit", "A", hgens.setlen_within_unit_histories(tier) + hgens.dirty_growth_histories(tier)[::2], spec="Trace_Handle", driver="hdrive")
+    run_batch(out, "setlen-within-unit", "A", hgens.setlen_within_unit_histories(tier) + hgens.dirty_growth_histories(tier)[::2], spec="Trace_Handle", driver="hdrive",
+              extra_specs=("Trace_HandleFid",), keep=flines)
     # beyond the listed properties (informational, tag XDROP): the handle outlives the CompoundFile
     run_batch(out, "file-dropped", "A", hgens.dropped_file_histories(tier, seed), spec="Trace_Handle", driver="hdrive")
     return finish(out, "model_checking",
                   "transition coverage of the MC_Handle graph (BFS depth bound) scaled by 512 bytes/unit and replayed under max_buffer_size in {1,1024,1536,2560,4096,default} x V3/V4; "
-                  "seeded random call sequences with sizes straddling 64/1024/4096/sector/buffer capacity and i64/u64 extreme seeks", H_ASSUME)
+                  "seeded random call sequences with sizes straddling 64/1024/4096/sector/buffer capacity and i64/u64 extreme seeks; "
+                  "fidelity: Trace_HandleFid replays the fault-free histories through CfbHandle at the real constants and compares the predicted cache state "
+                  "(window offset, cursor, filled, allocated, dirty, length) with the hook Stream::verif_state after every call", H_ASSUME,
+                  {"fidelity": handle_fidelity(flines, "C06")})
 
 
 def fault_histories(workloads, cls, tier, rng, label, kind=None):
